@@ -160,3 +160,48 @@ func (tdsChan *Channel) VerifSetChannelId(id int) {
 	tdsChan.channelId = id
 	tdsChan.tdsConn.tdsChannels[id] = tdsChan
 }
+
+// VerifFmtExtras returns the unexported members of blob and text
+// pointer formats.
+func VerifFmtExtras(f FieldFmt) (blobType int, classID, tableName string) {
+	switch t := f.(type) {
+	case *BlobFieldFmt:
+		return int(t.blobType), t.classID, ""
+	case *ImageFieldFmt:
+		return 0, "", t.tableName
+	case *TextFieldFmt:
+		return 0, "", t.tableName
+	case *UniTextFieldFmt:
+		return 0, "", t.tableName
+	case *XMLFieldFmt:
+		return 0, "", t.tableName
+	}
+	return 0, "", ""
+}
+
+// VerifDataExtras returns the unexported members of text pointer data.
+func VerifDataExtras(d FieldData) (txtPtr, timeStamp []byte) {
+	switch t := d.(type) {
+	case *ImageFieldData:
+		return t.txtPtr, t.timeStamp
+	case *TextFieldData:
+		return t.txtPtr, t.timeStamp
+	case *UniTextFieldData:
+		return t.txtPtr, t.timeStamp
+	case *XMLFieldData:
+		return t.txtPtr, t.timeStamp
+	}
+	return nil, nil
+}
+
+// VerifEnvMembers returns the members of an EnvChangePackage.
+func VerifEnvMembers(pkg *EnvChangePackage) []EnvChangePackageField { return pkg.members }
+
+// VerifNewEnvChange builds an EnvChangePackage.
+func VerifNewEnvChange(members []EnvChangePackageField) *EnvChangePackage {
+	return &EnvChangePackage{members: members}
+}
+
+// VerifParamsFmts sets the format package of a ParamsPackage created by
+// a client (what LastPkg does when the package is queued).
+func VerifParamsSetFmt(pkg *ParamsPackage, paramFmt *ParamFmtPackage) { pkg.paramFmt = paramFmt }
